@@ -613,6 +613,10 @@ impl<'a, S: Storage> BTree<'a, S> {
             if key <= last_key {
                 return Ok(false);
             }
+        } else {
+            // an empty leaf has no key to compare with: the new key may belong to an
+            // earlier leaf, only the descent from the root can tell
+            return Ok(false);
         }
 
         let value_len_size = varint_len(value.len() as u64);
@@ -826,6 +830,10 @@ impl<'a, S: Storage> BTree<'a, S> {
             if key <= last_key {
                 return Ok(false);
             }
+        } else {
+            // an empty leaf has no key to compare with: the new key may belong to an
+            // earlier leaf (or exist there already), only the descent from the root can tell
+            return Ok(false);
         }
 
         let value_len_size = varint_len(value.len() as u64);
